@@ -110,7 +110,7 @@ def excerpt(text, nlines=45):
 def san_env():
     e = dict(os.environ)
     sym = shutil.which("llvm-symbolizer") or shutil.which("llvm-symbolizer-14") or ""
-    e["ASAN_OPTIONS"] = "detect_leaks=1:abort_on_error=0:exitcode=99:allocator_may_return_null=1:detect_stack_use_after_return=0:symbolize=1:handle_abort=1:max_allocation_size_mb=4096" + (":external_symbolizer_path=" + sym if sym else "")
+    e["ASAN_OPTIONS"] = "malloc_context_size=6:detect_leaks=1:abort_on_error=0:exitcode=99:allocator_may_return_null=1:detect_stack_use_after_return=0:symbolize=1:handle_abort=1:max_allocation_size_mb=4096" + (":external_symbolizer_path=" + sym if sym else "")
     e["UBSAN_OPTIONS"] = "print_stacktrace=1:halt_on_error=1:exitcode=98" + (":external_symbolizer_path=" + sym if sym else "")
     e["LSAN_OPTIONS"] = "exitcode=97:print_suppressions=0"
     e["TSAN_OPTIONS"] = "halt_on_error=1:exitcode=96:detect_deadlocks=1:second_deadlock_stack=1:suppressions=" + os.path.join(VERIF, "harness", "tsan.supp") + (":external_symbolizer_path=" + sym if sym else "")
